@@ -512,27 +512,39 @@ func init() {
 // bindingPathEmpty: val is the value field of a binding record whose path field is known to have length 0 on the path.
 func bindingPathEmpty(prog *Program, sm *Summary, val *Sym) bool {
 	pathField := ""
-	if lt := prog.Bexpr.Types.Scope().Lookup("localVariable"); lt != nil {
-		if st, ok := lt.Type().Underlying().(*types.Struct); ok {
-			for i := 0; i < st.NumFields(); i++ {
-				if isStringSlice(st.Field(i).Type()) {
-					pathField = st.Field(i).Name()
-				}
+	if st := bindingRecordType(prog); st != nil {
+		for i := 0; i < st.NumFields(); i++ {
+			if isStringSlice(st.Field(i).Type()) {
+				pathField = st.Field(i).Name()
 			}
 		}
 	}
 	if pathField == "" {
 		return false
 	}
-	var pathSym *Sym
+	// the record's path field, in either spelling (a field of the loaded record, a load of the field's address)
+	var cands []*Sym
 	switch {
 	case val.K == sField && val.A != nil:
-		pathSym = &Sym{K: sField, A: val.A, Str: pathField}
+		cands = append(cands, &Sym{K: sField, A: val.A, Str: pathField})
+		if val.A.K == sLoad && val.A.A != nil {
+			cands = append(cands, &Sym{K: sLoad, A: &Sym{K: sFieldAddr, A: val.A.A, Str: pathField}})
+		}
 	case val.K == sLoad && val.A != nil && val.A.K == sFieldAddr && val.A.A != nil:
-		pathSym = &Sym{K: sLoad, A: &Sym{K: sFieldAddr, A: val.A.A, Str: pathField}}
+		cands = append(cands, &Sym{K: sLoad, A: &Sym{K: sFieldAddr, A: val.A.A, Str: pathField}})
+		cands = append(cands, &Sym{K: sField, A: &Sym{K: sLoad, A: val.A.A}, Str: pathField})
 	default:
 		return false
 	}
+	for _, pathSym := range cands {
+		if bindingPathEmptyAs(sm, pathSym) {
+			return true
+		}
+	}
+	return false
+}
+
+func bindingPathEmptyAs(sm *Summary, pathSym *Sym) bool {
 	l := &Sym{K: sLen, A: pathSym}
 	if eq, known := evalEq(sm.St, l, &Sym{K: sConst, C: constant.MakeInt64(0)}); known && eq {
 		return true
@@ -548,4 +560,29 @@ func bindingPathEmpty(prog *Program, sm *Summary, val *Sym) bool {
 		return true
 	}
 	return false
+}
+
+// bindingRecordType: the record a binding is kept in — the element type of the options' list of bindings (whatever it is
+// called), falling back to the type named localVariable.
+func bindingRecordType(prog *Program) *types.Struct {
+	if ot := optRoles(prog).optionsT; ot != nil {
+		if os, ok := ot.Underlying().(*types.Struct); ok {
+			bf := optField(prog, "WithLocalVariable")
+			for i := 0; i < os.NumFields(); i++ {
+				if os.Field(i).Name() == bf {
+					if sl, ok := os.Field(i).Type().Underlying().(*types.Slice); ok {
+						if st, ok := sl.Elem().Underlying().(*types.Struct); ok {
+							return st
+						}
+					}
+				}
+			}
+		}
+	}
+	if lt := prog.Bexpr.Types.Scope().Lookup("localVariable"); lt != nil {
+		if st, ok := lt.Type().Underlying().(*types.Struct); ok {
+			return st
+		}
+	}
+	return nil
 }
